@@ -210,7 +210,12 @@ func runC08(s *kernel.Sim, _ string) {
 	n.Faults = simnet.Faults{}
 	maxUDP := kernel.Pick(t, []uint16{1232, 0, 512, 4096, 65535}, "max-udp-resp")
 	p := &pipeline{}
-	sv := startServers(s, n, p, serverOpts{dot: true, doh: true, doq: true, dnscrypt: true, maxUDPRespSize: maxUDP})
+	boundBuf := 0
+	if t.Chance(1, 3, "bound") {
+		boundBuf = kernel.Pick(t, []int{1, 4, 64}, "bound-chan")
+		s.Probe("interface-bound-listeners")
+	}
+	sv := startServers(s, n, p, serverOpts{dot: true, doh: true, doq: true, dnscrypt: true, maxUDPRespSize: maxUDP, bound: boundBuf})
 	defer sv.shutdown()
 	defer runtime.GC()
 
